@@ -134,10 +134,13 @@ func (a Tuple) M__iadd__(other Object) (Object, error) {
 func (l Tuple) M__mul__(other Object) (Object, error) {
 	if b, ok := convertToInt(other); ok {
 		m := len(l)
-		n := int(b) * m
-		if n < 0 {
-			n = 0
+		if b < 0 {
+			b = 0
 		}
+		if m != 0 && b > Int(GoIntMax/m) {
+			return nil, ExceptionNewf(MemoryError, "repeated sequence is too long")
+		}
+		n := int(b) * m
 		newTuple := make(Tuple, n)
 		for i := 0; i < n; i += m {
 			copy(newTuple[i:i+m], l)
